@@ -125,9 +125,9 @@ Definition sstep (o : op) (p : spec) : option (bool * spec) :=
       if k <? p_next p then Some (false, set_pctx (k :: p_ctx p) p) else None
   | TExit k e =>
       if k <? p_next p then
-        let '(b, q) := if live k p then (if e then rollback_handle k p else (false, commit_handle k p))
-                       else (false, p) in
-        Some (b, set_pctx (tl (p_ctx q)) q)
+        let bq := if live k p then (if e then rollback_handle k p else (false, commit_handle k p))
+                  else (false, p) in
+        Some (fst bq, set_pctx (tl (p_ctx (snd bq))) (snd bq))
       else None
   | FBegin n => Some (false, set_pbeginfail n p)
   | FRollback b => Some (false, set_prbfail b p)
@@ -160,21 +160,13 @@ Definition ok_end (k : nat) (p : spec) : bool :=
 Definition ok_dead_root (k : nat) (p : spec) : bool :=
   live k p || negb (kind_root k p) || negb (spec_in_nested p).
 
-(* (e) the DBAPI rollback reports an error while a savepoint is live (the savepoint objects are then
-   not cancelled); [rb] = the operation rolls the root frame back *)
-Definition ok_rbfail (p : spec) : bool := negb (p_rbfail p) || negb (spec_in_nested p).
-Definition rolls_back_root (k : nat) (p : spec) : bool := live k p && is_root_frame k p.
-
 Definition gstep (o : op) (p : spec) : bool :=
   match o with
-  | ORollback | OClose => ok_rbfail p
   | TCommit k => ok_end k p
-  | TRollback k | TClose k =>
-      ok_end k p && ok_dead_root k p && (negb (rolls_back_root k p) || ok_rbfail p)
+  | TRollback k | TClose k => ok_end k p && ok_dead_root k p
   | TEnter k => negb (existsb (Nat.eqb k) (p_ctx p))
   | TExit k e =>
       match p_ctx p with j :: _ => Nat.eqb j k | [] => false end && ok_end k p && ok_dead_root k p
-      && (negb (e && rolls_back_root k p) || ok_rbfail p)
   | _ => true
   end.
 
